@@ -72,6 +72,11 @@ def worker_main(args) -> int:
             journal.truncate()
             journal.flush()
             ctx.cur_case = case
+            audit_files = getattr(mon, "AUDIT_INPUT_FILES", False)
+            if audit_files:
+                from vlib import sigfile
+
+                sigfile.forget_inputs()
             try:
                 mon.run_case(case, ctx)
             except Exception as exc:  # harness bug or unexpected library error: never silently held
@@ -81,6 +86,10 @@ def worker_main(args) -> int:
                     case,
                     tb=tb_tail(exc, 6),
                 )
+            if audit_files:
+                ctx.count("input_file_audits", len(sigfile._INPUTS))
+                for pth in sigfile.audit_inputs():
+                    ctx.violation("input-file-modified", f"input file {os.path.basename(pth)} no longer holds the bytes that were written before the library was asked to read it", case)
             if budget and time.time() - t0 > budget:
                 ctx.notes["budget_cut_at_case"] = i
                 break
